@@ -5,7 +5,7 @@
 set -u
 SD="$1"; ID="$2"
 W=$(mktemp -d /tmp/nsv-confirm-XXXXXX); rmdir "$W"
-export CARGO_TARGET_DIR=/tmp/nsv-confirm-target CARGO_NET_OFFLINE=true
+export CARGO_TARGET_DIR=${NSV_CONFIRM_TARGET:-/tmp/nsv-confirm-target} CARGO_NET_OFFLINE=true
 LOG="$SD/confirm.log"; : > "$LOG"
 git -C /repo worktree add -f "$W" HEAD >/dev/null 2>&1
 cleanup() { git -C /repo worktree remove --force "$W" >/dev/null 2>&1 || rm -rf "$W"; }
